@@ -523,7 +523,6 @@ def _oracle(c, io):
 def zone(c):
     op = c['op']
     V = c.get('v')
-    if op == 'iil' and V and V['t'] == 'f' and V['v'] in ('inf', '-inf'): return 'INF'
     L = lim_of(c)
     if L > 0 and V and op in ('bfs', 'ivb', 'iil', 'ifb'):      # (ifb: int(bool_from_string(10**4300)) raises too)
         if V['t'] == 'i' and _declen(int(V['v'], 16)) > L: return 'MAXDIGITS'
@@ -609,4 +608,4 @@ LEVEL_TEXT = ('Theorems for all strings / integers / values (no length or size b
               'equal to the model.')
 LEVEL_NOTE = ('Trusted: Coq kernel; translator (tools/gen/gen_C14.py on top of py2gal); the CPython runtime model Model/C14_Py.v + Base strip/lower/'
               'replace + Gen/Unicode.v (swept against the interpreter); objects other than str/int/bool/None only through observed str()/int(). '
-              'All theorems closed under the global context.  Known findings: INF (is_int_like(inf) raises OverflowError), MAXDIGITS (4300-digit limit).')
+              'All theorems closed under the global context.  Known finding: MAXDIGITS (4300-digit limit); INF (is_int_like(inf) raised OverflowError) is fixed in 03dab32 and replayed as a regression.')
